@@ -24,18 +24,6 @@ pub enum TextClass {
     Empty,
 }
 
-pub const ALL_CLASSES: &[TextClass] = &[
-    TextClass::Token,
-    TextClass::Plain,
-    TextClass::Reserved,
-    TextClass::Control,
-    TextClass::Leading,
-    TextClass::Unicode,
-    TextClass::PercentLiteral,
-    TextClass::Mixed,
-    TextClass::Empty,
-];
-
 const TOKEN: &[u8] = b"abcdefgXYZ0123456789_.:-";
 const PLAIN: &[u8] = b"abc XYZ 019 _.:-+*$@!?|^/()[]{}<>'~`";
 const RESERVED: &[&str] = &[";", "=", "&", ",", "%", ";;", "a=b", "x,y", "&amp;", "100%", "k=v;w=z"];
